@@ -112,8 +112,13 @@ class Unit:
         if key not in self.wanted:
             self.wanted.append(key)
 
-    def _fn(self, key):
+    def _fn(self, key, need_body=True):
         fn = self.P.functions.get(key)
+        if fn is None and not need_body:
+            q = re.sub(r'[<#].*$', '', key)
+            decls = self.P.fn_decls.get(q, [])
+            if decls:
+                return decls[0]
         if fn is None:
             raise Unsupported('no body for %s' % key)
         return fn
@@ -121,13 +126,13 @@ class Unit:
     def param_types(self, key):
         if key in self.externals:
             return self.externals[key]['params']
-        fn = self._fn(key)
+        fn = self._fn(key, need_body=(self.mode != 'modular'))
         return [self.P.typeof(c) for c in fn.get('inner', []) or [] if c.get('kind') == 'ParmVarDecl']
 
     def ret_type(self, key):
         if key in self.externals:
             return self.externals[key]['ret']
-        fn = self._fn(key)
+        fn = self._fn(key, need_body=(self.mode != 'modular'))
         ft = FnTranslator(self.P, self, key, fn)
         return self.P.tp.parse(ft._ret_type_string(fn))
 
@@ -137,6 +142,9 @@ class Unit:
         if key in self._maythrow:
             return self._maythrow[key]
         self._maythrow[key] = False   # recursion guard (no recursion in the extracted subset)
+        if key not in self.P.functions and self.mode == 'modular':
+            self._maythrow[key] = True   # body not loaded: the contract stub decides; callers must test verif_exc
+            return True
         fn = self._fn(key)
         r = False
         for x in astload.walk(fn):
@@ -382,7 +390,7 @@ class Unit:
         return self
 
     def prototype(self, key):
-        fn = self._fn(key)
+        fn = self._fn(key, need_body=False)
         ft = FnTranslator(self.P, self, key, fn)
         ft.ret_t = self.P.tp.parse(ft._ret_type_string(fn))
         params = []
